@@ -213,7 +213,13 @@ func (t *ewTensorObs) observe() {
 	t.changed = t.op.Changed(t.snap)
 	t.outside = t.op.OutsideChanged(t.snap)
 	t.metaDif = t.meta.Diff(gen.MetaOf(t.op.D))
-	t.after = t.op.Current()
+	if p, msg := core.Catch(func() { t.after = t.op.Current() }); p {
+		// the tensor was destroyed under the harness (released to the pool, header zeroed): that is the observation
+		t.after = nil
+		if t.metaDif == "" {
+			t.metaDif = "tensor cannot be read afterwards: " + msg
+		}
+	}
 }
 
 func (t *ewTensorObs) untouched() bool { return len(t.changed) == 0 && t.metaDif == "" }
@@ -223,7 +229,7 @@ func ewScalarTensor(s interface{}) *tensor.Dense { return tensor.New(tensor.From
 
 var arithOps = []string{"Add", "Sub", "Mul", "Div", "Mod", "Pow", "MinBetween", "MaxBetween"}
 var cmpOps = []string{"Lt", "Gt", "Lte", "Gte", "ElEq", "ElNe"}
-var unaryOps = []string{"Neg", "Inv", "Square", "Cube", "Abs", "Sign", "Clamp", "Sqrt", "Cbrt", "InvSqrt", "Exp", "Log", "Log2", "Log10", "Tanh", "Apply"}
+var unaryOps = []string{"Neg", "Inv", "Square", "Cube", "Abs", "Sign", "Clamp", "Sqrt", "Cbrt", "InvSqrt", "Exp", "Log", "Log2", "Log10", "Tanh", "Apply", "ApplyErr"}
 
 type binFn func(a, b interface{}, opts ...tensor.FuncOpt) (tensor.Tensor, error)
 
@@ -311,6 +317,20 @@ func applyFn(t reflect.Type) (fn interface{}, mdl func(interface{}) interface{})
 	return nil, nil
 }
 
+// applyErrFn is applyFn's function in the other signature Apply accepts: func(T) (T, error), never failing.
+func applyErrFn(t reflect.Type) interface{} {
+	fn, _ := applyFn(t)
+	if fn == nil {
+		return nil
+	}
+	fv := reflect.ValueOf(fn)
+	errT := reflect.TypeOf((*error)(nil)).Elem()
+	ft := reflect.FuncOf([]reflect.Type{t}, []reflect.Type{t, errT}, false)
+	return reflect.MakeFunc(ft, func(args []reflect.Value) []reflect.Value {
+		return []reflect.Value{fv.Call(args)[0], reflect.Zero(errT)}
+	}).Interface()
+}
+
 func incModel(v interface{}) interface{} {
 	r, _ := model.Bin("Add", v, model.One(reflect.TypeOf(v)))
 	return r
@@ -355,7 +375,7 @@ func ewExpected(sp ewSpec, am, bm *model.ND, s interface{}) (want *model.ND, def
 			switch sp.Op {
 			case "Clamp":
 				v[i], defined[i] = model.Clamp(x, model.FromInt(sp.T, 2), model.FromInt(sp.T, 5)), true
-			case "Apply":
+			case "Apply", "ApplyErr":
 				if _, mdl := applyFn(sp.T); mdl != nil {
 					v[i] = mdl(x)
 				} else {
@@ -513,6 +533,8 @@ func ewRun(c *core.Ctx, sp ewSpec) *ewObs {
 			case "Apply":
 				fn, _ := applyFn(sp.T)
 				res, o.err = a.Apply(fn, opts...)
+			case "ApplyErr":
+				res, o.err = a.Apply(applyErrFn(sp.T), opts...)
 			default:
 				res, o.err = pkgUn[sp.Op](a, opts...)
 			}
@@ -722,7 +744,7 @@ func ewSupported(sp ewSpec) bool {
 		switch sp.Op {
 		case "Neg", "Square", "Cube", "Abs", "Sign", "Clamp":
 			return model.IsFloat(t) || model.IsSigned(t)
-		case "Apply":
+		case "Apply", "ApplyErr":
 			return true
 		}
 		return model.IsFloat(t)
@@ -744,7 +766,7 @@ func ewDefinedFor(sp ewSpec) bool {
 		_, ok := model.Cmp(sp.Op, z, z)
 		return ok
 	case "unary":
-		if sp.Op == "Apply" {
+		if sp.Op == "Apply" || sp.Op == "ApplyErr" {
 			return true
 		}
 		if sp.Op == "Clamp" {
